@@ -196,6 +196,72 @@ func RuleDFlagBound(c *core.Ctx) {
 				}
 			}
 		}
+		if ok {
+			return true
+		}
+		// … or the flag's value is handed to a function of the commands that compares
+		// its parameter with a constant and returns an error (flags.CheckDigits(r.digits))
+		for _, fn := range p.SrcFuncs() {
+			if !strings.HasPrefix(core.PkgPathOf(fn), core.Module+"/cmd") {
+				continue
+			}
+			core.EachInstr(fn, func(ins ssa.Instruction) {
+				call, isCall := ins.(*ssa.Call)
+				if !isCall || ok {
+					return
+				}
+				callee := call.Call.StaticCallee()
+				if callee == nil || callee.Blocks == nil || !strings.HasPrefix(core.PkgPathOf(callee), core.Module+"/cmd") {
+					return
+				}
+				for i, a := range call.Call.Args {
+					fromFlag := false
+					for x := range originSet(p, a, 0) {
+						if fa, isFA := x.(*ssa.FieldAddr); isFA && core.FieldOf(fa) == f {
+							fromFlag = true
+						}
+					}
+					if !fromFlag || i >= len(callee.Params) {
+						continue
+					}
+					prm := callee.Params[i]
+					for _, cb := range callee.Blocks {
+						iff, isIf := cb.Instrs[len(cb.Instrs)-1].(*ssa.If)
+						if !isIf {
+							continue
+						}
+						bo, isBo := iff.Cond.(*ssa.BinOp)
+						if !isBo {
+							continue
+						}
+						cmpParam := false
+						switch bo.Op {
+						case token.GTR, token.GEQ:
+							_, isC := bo.Y.(*ssa.Const)
+							cmpParam = isC && originSet(p, bo.X, 0)[prm]
+						case token.LSS, token.LEQ:
+							_, isC := bo.X.(*ssa.Const)
+							cmpParam = isC && originSet(p, bo.Y, 0)[prm]
+						}
+						if !cmpParam {
+							continue
+						}
+						for _, tb := range callee.Blocks {
+							if tb != cb.Succs[0] && !cb.Succs[0].Dominates(tb) {
+								continue
+							}
+							if ret, isRet := tb.Instrs[len(tb.Instrs)-1].(*ssa.Return); isRet {
+								for _, rv := range ret.Results {
+									if core.IsErrorType(rv.Type()) && !core.IsNilConst(rv) {
+										ok = true
+									}
+								}
+							}
+						}
+					}
+				}
+			})
+		}
 		return ok
 	}
 	var fields []*types.Var
